@@ -223,7 +223,7 @@ def obligations(tier, seed):
     out = []
     if tier == "quick":
         n, pool, to = 4, 4, 240
-        per = {"catalogue": 12, "all": 2, "competition": 2, "open": 3}
+        per = {"catalogue": 12, "all": 2, "competition": 5, "open": 3}
     else:
         n, pool, to = 4, 7, 1800
         per = {"catalogue": 120, "all": 7, "competition": 5, "open": 12}
